@@ -35,6 +35,7 @@ def run(ctx):
     ctx.guard(scope_rule, ctx)
     from . import scope as _scope
     ctx.guard(_scope.symbols_exact, ctx, 'C06-SYMBOLS')
+    ctx.guard(params_rule, ctx)
     from . import c08 as _c08, c13 as _c13, lexrules as _lex
     _g = _lex.grammar_of(ctx.repo, 'bridgepoint.oal:OALParser')
     ctx.shared(_c08.taint, ctx, _g, _c08.keyword_fields(ctx, _g))   # cardinality keywords decide V_INT / V_INS and the select subtype
@@ -467,6 +468,44 @@ def scope_rule(ctx):
     ls = repo.func(PB + ':SymbolTable.leave_scope')
     r.check(pm.contains('self.stack.append(_S)', es) and pm.contains('_S = self.stack.pop()', ls), 'scopes form a stack', es,
             construct=PB + ':SymbolTable', key='stack', msg='enter_scope/leave_scope no longer push/pop self.stack')
+
+
+def params_rule(ctx):
+    '''param.<name> is resolved among the parameters of the element that owns the body: every selection by the parameter name in an
+    accept_ParamAccessNode is a navigation that starts at the prebuilder's own element (one(self._x)...), never a model-wide lookup'''
+    from .common import resolve_locals
+    repo = ctx.repo
+    r = ctx.rule('C06-PARAMS', 'a parameter read is resolved among the parameters of the owning bridge / function / operation / event / message',
+                 floor=8, oracle='property statement (a parameter read has the declared type of THAT parameter)')
+    for cls in repo.classes(PB):
+        m = repo.methods(cls).get('accept_ParamAccessNode')
+        if m is None or cls.name == 'ActionPrebuilder':
+            continue
+        Q = '%s:%s.accept_ParamAccessNode' % (PB, cls.name)
+        m = repo.nfunc(Q)          # normal form: one name per value, so that the start of every navigation can be traced back
+        node_p = param_names(m)[0]
+        n_sel = 0
+        for c in ast.walk(m):
+            if not isinstance(c, ast.Call):
+                continue
+            args = [resolve_locals(m, a, pure_only=False) for a in c.args]
+            if not any(pm.match('where(Name=%s.variable_name)' % node_p, a) is not None for a in args):
+                continue
+            n_sel += 1
+            root = c.func
+            while isinstance(root, (ast.Subscript, ast.Attribute)):
+                root = root.value
+            rooted = isinstance(root, ast.Call) and dotted(root.func) in ('one', 'many', 'xtuml.navigate_one', 'xtuml.navigate_many') and \
+                isinstance(c.func, ast.Subscript)
+            start = resolve_locals(m, root.args[0], pure_only=False) if rooted and root.args else None
+            own = start is not None and any(isinstance(x, ast.Attribute) and isinstance(x.value, ast.Name) and x.value.id == 'self' and x.attr.startswith('_')
+                                            for x in ast.walk(start))
+            r.check(rooted and own, '%s selects the parameter by name along a navigation from its own element' % cls.name, c, construct=Q, key='param-scope',
+                    msg='%s resolves param.<name> with `%s`, which is not a navigation from the element the body belongs to: a parameter of the '
+                        'same name declared by ANOTHER %s is found, and the read gets that parameter\'s type' % (
+                            Q, src(c)[:80], {'OperationPrebuilder': 'operation', 'BridgePrebuilder': 'bridge', 'FunctionPrebuilder': 'function'}.get(cls.name, 'element')))
+        r.check(n_sel >= 1, '%s selects by the parameter name' % cls.name, m, construct=Q, key='param-select',
+                msg='%s no longer selects the parameter by where(Name=node.variable_name)' % Q)
 
 
 # ---------------------------------------------------------------------------
